@@ -187,7 +187,9 @@ T tdigest<T, A>::get_quantile(double rank) const {
       }
       const double w1 = weight - weight_so_far - left_weight;
       const double w2 = weight_so_far + dw - weight - right_weight;
-      return weighted_average(centroids_[i].get_mean(), w1, centroids_[i + 1].get_mean(), w2);
+      // w1 is the distance from the left centroid and w2 the distance to the right one,
+      // so the left mean is weighted by w2 and the right mean by w1
+      return weighted_average(centroids_[i].get_mean(), w2, centroids_[i + 1].get_mean(), w1);
     }
     weight_so_far += dw;
   }
@@ -296,7 +298,9 @@ void tdigest<T, A>::merge(vector_centroid& buffer, W weight) {
 
 template<typename T, typename A>
 double tdigest<T, A>::weighted_average(double x1, double w1, double x2, double w2) {
-  return (x1 * w1 + x2 * w2) / (w1 + w2);
+  // clamp: rounding must not take the result outside [x1, x2]
+  const double x = (x1 * w1 + x2 * w2) / (w1 + w2);
+  return std::max(std::min(x1, x2), std::min(x, std::max(x1, x2)));
 }
 
 template<typename T, typename A>
